@@ -745,6 +745,9 @@ func runC08(c *Ctx) {
 		if only == "lex" || only == "lex:stream" {
 			c08TokenStream(c)
 		}
+		if only == "lex" || only == "lex:actions" {
+			c08Actions(c)
+		}
 		return
 	}
 
@@ -768,6 +771,8 @@ func runC08(c *Ctx) {
 	c08TokenStream(c)
 	// ---- 3. src_stm action: Go vs model ----
 	c08SrcAction(c)
+	// ---- 3a. every token-consuming grammar action: real parser on tiny programs vs Martian.LexerActions ----
+	c08Actions(c)
 	// ---- 3b. include trees with planted errors: every returned error is rendered (child process) ----
 	c08RunIncTrees(c)
 	tTok := time.Since(t0)
